@@ -1686,7 +1686,7 @@ def _rename_local(o, a, b):
                 _rename_local(v, a, b)
 
 
-def _inline_unknown_helpers(d, record, max_blocks=120, max_depth=4):
+def _inline_unknown_helpers(d, record, max_blocks=400, max_depth=4):
     """Inline the MIR of crate-local helper functions that are not on tables/known_functions.txt into
     their callers, so that `extract a block into a private helper` does not hide code from the rules.
     Only plain functions (no coroutines), non-recursive, of bounded size; closures defined inside a
